@@ -355,9 +355,10 @@ def job_dir(root, mod, oi):
 
 def run_asn1c(asn1c, skel, mod, opts, d):
     os.makedirs(d, exist_ok=True)
-    fn = mod["name"] + ".asn1"
-    open(os.path.join(d, fn), "w").write(mod["text"])
-    rc, out, err = run([asn1c, "-S", skel, "-pdu=all"] + list(opts) + [fn], d, timeout=120)
+    files = mod.get("files") or [(mod["name"] + ".asn1", mod["text"])]
+    for fn, text in files:              # several input files: named on the command line in the order of the list
+        open(os.path.join(d, fn), "w").write(text)
+    rc, out, err = run([asn1c, "-S", skel, "-pdu=all"] + list(opts) + [fn for fn, _ in files], d, timeout=120)
     return rc, out, err
 
 
